@@ -216,6 +216,41 @@ def hand_countdown(x: fp.Real, y: fp.Real, xs: list[fp.Real]):
         for e in range(2, -3, -2):
             acc = acc - e
         return acc''',
+    'hand_early_ifexpr': '''@fp.fpy
+def hand_early_ifexpr(x: fp.Real, y: fp.Real, xs: list[fp.Real]):
+    with fp.IEEEContext(11, 64, fp.RM.RTN):
+        t = x - y
+        with fp.IEEEContext(11, 64, fp.RM.RTP):
+            if t < 1:
+                return x if (y / 3) * 3 > y else 0 - x
+        return t if (x / 3) * 3 < x else y''',
+    'hand_helper_twice': '''@fp.fpy
+def sc3(v: fp.Real, up: bool) -> fp.Real:
+    return v * 3 if up else v / 3
+
+@fp.fpy
+def hand_helper_twice(x: fp.Real, y: fp.Real, xs: list[fp.Real]):
+    with fp.FP32:
+        a32 = fp.round(x)
+    with fp.FP64:
+        u = sc3(a32, x > 0)
+        v = sc3(y / 3, x > 0)
+        w = sc3(y * 1e300, y > 0)
+        return (u, v, w)''',
+    'hand_while_temp': '''@fp.fpy
+def hand_while_temp(x: fp.Real, y: fp.Real, xs: list[fp.Real]):
+    with fp.FP64:
+        i = x
+        while min(i * 2, y) < 10 and i < 100:
+            i = i + 1
+        return i''',
+    'hand_guarded_reduction': '''@fp.fpy
+def hand_guarded_reduction(x: fp.Real, y: fp.Real, xs: list[fp.Real]):
+    with fp.FP64:
+        ys = xs[2:len(xs)]
+        m = max(ys) if len(ys) > 0 else x
+        ok = len(ys) > 0 and min(ys) > y
+        return (m, ok, len(ys))''',
     'hand_alias_write': '''@fp.fpy
 def hand_alias_write(x: fp.Real, y: fp.Real, xs: list[fp.Real]):
     with fp.FP64:
